@@ -1,10 +1,11 @@
 (* Extraction of the executable model. Only ExtrOcamlBasic and ExtrOcamlString directives are used. *)
 From Coq Require Import Extraction ExtrOcamlBasic ExtrOcamlString.
-From LN Require Import Model.Chars Model.Case Model.Names Spec.Ident.
+From LN Require Import Model.Chars Model.Case Model.Names Model.Fs Spec.Ident.
 Extraction Language OCaml.
 Set Extraction AccessOpaque.
 Extraction "model.ml"
   Chars.lit Case.snake Case.pascal Case.screaming_snake Case.lower_case Case.flat
   Names.sanitize Names.sanitize_struct Names.sanitize_filename Names.is_restricted Names.ident_new_ok
   Names.op_file_name Names.op_name_of_id Names.qualified_env_var Names.package_name
-  Ident.ident_ok Ident.name_dom.
+  Ident.ident_ok Ident.name_dom
+  Fs.gen Fs.crash Fs.crash_cleanup Fs.wwc Fs.in_scope.
